@@ -144,6 +144,60 @@ def run (P : Prim α) (As : List (Mat α n n)) (rank : Nat) (tol : α) : Nat × 
   let maxIter := min rank n
   loop P As maxIter tol (maxIter + 1) 0 (As.map init)
 
+/-! ### The loop as it is after fix d829792 (masking of batch members whose residual has vanished)
+
+    L_m.scatter_(-1, pi_m, max_diag_values.clamp_min(0.0).sqrt())                  -- `clampMin0`
+    pivot = L_m.gather(-1, pi_m)
+    L_m_new = torch.where(pivot > 0, L_m_new / pivot, torch.zeros_like(L_m_new))   -- `if 0 < pivot then … else 0`
+
+`stepM` is the literal mirror of the current loop body (this is what the driver runs); `step` above is the same body without the
+two guards.  They coincide whenever the pivot is positive (`stepM_eq_step`), and on a non-positive pivot `stepM` writes a zero row
+and leaves the diagonal alone (`stepM_nonpos`). -/
+
+/-- `x.clamp_min(0.0)` -/
+def clampMin0 (x : α) : α := if x < 0 then 0 else x
+
+/-- One iteration of the CURRENT while-loop body on one batch member. -/
+def stepM (P : Prim α) (A : Mat α n n) (s : St α n) (m : Fin n) : St α n :=
+  let maxv := pivotVal s m
+  let perm2 := Vector.ofFn (swapPerm s m)
+  let piM := perm2.get m
+  let Lm0 : Fin n → α := upd (fun _ => 0) piM (P.sqrt (clampMin0 maxv))
+  if m.val + 1 < n then
+    let row := A piM
+    let piI := (tailPos n (m.val + 1)).map perm2.get
+    let pivot := Lm0 piM
+    let new := piI.map fun i =>
+      if 0 < pivot then (row i - (s.rows.map fun r => r.get piM * r.get i).sum) / pivot else 0
+    let Lm := Vector.ofFn (scatter Lm0 piI new)
+    let diag' := Vector.ofFn (scatter s.diag.get piI (List.zipWith (fun i v => s.diag.get i - v * v) piI new))
+    let err' := (piI.map fun i => absv (diag'.get i)).sum / origError A
+    { diag := diag', perm := perm2, rows := s.rows ++ [Lm], err := err' }
+  else
+    { s with perm := perm2, rows := s.rows ++ [Vector.ofFn Lm0] }
+
+/-- One batch member after `m` iterations of the current code, whatever the rest of the batch does. -/
+def iterM (P : Prim α) (A : Mat α n n) : Nat → St α n
+  | 0 => init A
+  | m + 1 => if h : m < n then stepM P A (iterM P A m) ⟨m, h⟩ else iterM P A m
+
+/-- The COUPLED while loop of the current code on a batch: one shared counter `m`, one stop test
+`torch.max(errors) > error_tol` over all members, every member does every iteration (`stepM`). -/
+def loopM (P : Prim α) (As : List (Mat α n n)) (maxIter : Nat) (tol : α) :
+    (fuel m : Nat) → List (St α n) → Nat × List (St α n)
+  | 0, m, ss => (m, ss)
+  | fuel + 1, m, ss =>
+    if m == 0 || (decide (m < maxIter) && decide (tol < batchErr ss)) then
+      if h : m < n then
+        loopM P As maxIter tol fuel (m + 1) (List.zipWith (fun A s => stepM P A s ⟨m, h⟩) As ss)
+      else (m, ss)
+    else (m, ss)
+
+/-- `PivotedCholesky.forward(max_iter = rank, error_tol)` on a batch, current code. -/
+def runM (P : Prim α) (As : List (Mat α n n)) (rank : Nat) (tol : α) : Nat × List (St α n) :=
+  let maxIter := min rank n
+  loopM P As maxIter tol (maxIter + 1) 0 (As.map init)
+
 /-- `L[..., :m, :].mT` — the `n × m` factor, column `t` = row `t` of the buffer. -/
 def factor (s : St α n) : List (Fin n → α) := s.rows.map (·.get)
 
